@@ -304,6 +304,31 @@ Proof.
 Qed.
 Print Assumptions C11_trinterp_valid_linear.
 
+(* since fix 1310ef1 trinterp hands shortest=True to slerp (regenerated from the observed calls): whatever signs r2q gives the two
+   quaternions, NO unit pair is antipodal for it, the arc taken is the shorter one (quaternion angle <= pi/2, i.e. at most a half turn),
+   and the validity / linear-translation statement holds for EVERY pair of unit quaternions *)
+Theorem C11_trinterp_takes_shorter_arc : trinterp_shortest = true /\
+  forall q0 q1, unitq q0 -> unitq q1 ->
+    not_antipodal trinterp_shortest q0 q1 /\ theta trinterp_shortest q0 q1 <= PI/2 /\
+    0 <= dot4 Rops (start' trinterp_shortest q0 q1) q1 /\
+    q2r_ref Rops (start' trinterp_shortest q0 q1) = q2r_ref Rops q0.
+Proof.
+  split; [reflexivity|]. intros q0 q1 H0 H1. destruct (C11_shortest_arc q0 q1 trinterp_shortest H0 H1) as (_ & _ & A & B).
+  split; [left; reflexivity|]. split; [apply A; reflexivity|]. split; [apply B; reflexivity | apply q2r_slerp_q0].
+Qed.
+Print Assumptions C11_trinterp_takes_shorter_arc.
+
+Theorem C11_trinterp_valid_every_pair : forall q0 q1 p0 p1 s, unitq q0 -> unitq q1 -> 0 <= s <= 1 ->
+  exists q, slerpR q0 q1 s trinterp_shortest = Ok q /\ unitq q /\
+    trq q0 q1 p0 p1 s = Ok (rt2tr3 Rops (q2r_ref Rops q) (lerp3 Rops p0 p1 s)) /\
+    SE3 (rt2tr3 Rops (q2r_ref Rops q) (lerp3 Rops p0 p1 s)).
+Proof.
+  intros q0 q1 p0 p1 s H0 H1 Hs. destruct C11_trinterp_takes_shorter_arc as [_ T]. destruct (T q0 q1 H0 H1) as (NA & _).
+  destruct (C11_trinterp_valid_linear q0 q1 p0 p1 s H0 H1 Hs NA) as (q & A & B & C & D & _).
+  exists q. split; [exact A|]. split; [exact B|]. split; [exact C | exact D].
+Qed.
+Print Assumptions C11_trinterp_valid_every_pair.
+
 Theorem C11_trinterp_endpoints : forall (T0 T1 : M44 R) q0 q1, SE3 T0 -> SE3 T1 ->
   q2r_ref Rops q0 = t2r3 T0 -> q2r_ref Rops q1 = t2r3 T1 ->
   trq q0 q1 (transl3 T0) (transl3 T1) 0 = Ok T0 /\ trq q0 q1 (transl3 T0) (transl3 T1) 1 = Ok T1 /\
